@@ -28,6 +28,82 @@ fn foreign_element(rng: &mut Rng) -> String {
     }
 }
 
+/// a foreign element with the given local name, of the kind the reader expects under that name
+fn foreign_like(local: &str, ty: &str) -> String {
+    match ty {
+        "Blob" => format!("<fx:{local} type=\"Blob\" fileOffset=\"48\" length=\"3\"/>\n"),
+        "Integer" => format!("<fx:{local} type=\"Integer\">42</fx:{local}>\n"),
+        "Float" => format!("<fx:{local} type=\"Float\">1.5</fx:{local}>\n"),
+        "ScaledInteger" => format!("<fx:{local} type=\"ScaledInteger\" minimum=\"0\" maximum=\"9\" scale=\"2\">3</fx:{local}>\n"),
+        "String" => format!("<fx:{local} type=\"String\"><![CDATA[foreign]]></fx:{local}>\n"),
+        "Vector" => format!("<fx:{local} type=\"Vector\" allowHeterogeneousChildren=\"1\">\n<fx:vectorChild type=\"String\"><![CDATA[evil]]></fx:vectorChild>\n</fx:{local}>\n"),
+        _ => format!("<fx:{local} type=\"Structure\">\n<fx:guid type=\"String\"><![CDATA[evil]]></fx:guid>\n<fx:x type=\"Float\">9</fx:x>\n<fx:jpegImage type=\"Blob\" fileOffset=\"48\" length=\"3\"/>\n<fx:imageWidth type=\"Integer\">7</fx:imageWidth>\n</fx:{local}>\n"),
+    }
+}
+
+/// optional children of the standard structures with the type the reader expects
+const OPTIONAL_CHILDREN: [(&str, &str); 30] = [
+    ("imageMask", "Blob"), ("jpegImage", "Blob"), ("pngImage", "Blob"), ("pose", "Structure"), ("name", "String"), ("description", "String"),
+    ("cartesianBounds", "Structure"), ("sphericalBounds", "Structure"), ("indexBounds", "Structure"), ("intensityLimits", "Structure"),
+    ("colorLimits", "Structure"), ("acquisitionStart", "Structure"), ("acquisitionEnd", "Structure"), ("acquisitionDateTime", "Structure"),
+    ("sensorVendor", "String"), ("sensorModel", "String"), ("sensorSerialNumber", "String"), ("temperature", "Float"),
+    ("relativeHumidity", "Float"), ("atmosphericPressure", "Float"), ("originalGuids", "Vector"), ("associatedData3DGuid", "String"),
+    ("coordinateMetadata", "String"), ("creationDateTime", "Structure"), ("pinholeRepresentation", "Structure"),
+    ("sphericalRepresentation", "Structure"), ("cylindricalRepresentation", "Structure"), ("visualReferenceRepresentation", "Structure"),
+    ("rotation", "Structure"), ("translation", "Structure"),
+];
+
+/// "shadow" insertions: (position, text) — a foreign twin directly BEFORE a standard element (same parent, same
+/// local name, same type), or a foreign optional child as FIRST child of a structure
+fn shadow_insertion(rng: &mut Rng, xml: &str) -> Option<(usize, String, &'static str)> {
+    let mut twins: Vec<(usize, String, String)> = vec![]; // line start, tag, type
+    let mut first_child: Vec<(usize, String)> = vec![]; // position after an opening Structure line, parent tag
+    let mut pos = 0usize;
+    let mut in_proto = false;
+    let mut line_no = 0;
+    for line in xml.split_inclusive('\n') {
+        if line.starts_with("</prototype>") {
+            in_proto = false;
+        }
+        if line_no >= 2 && !in_proto && line.starts_with('<') && !line.starts_with("</") {
+            let tag: String = line[1..].chars().take_while(|c| c.is_ascii_alphanumeric()).collect();
+            let ty = line.split("type=\"").nth(1).and_then(|r| r.split('"').next()).unwrap_or("").to_string();
+            if !tag.is_empty() && !line[1..].starts_with("fx:") {
+                twins.push((pos, tag.clone(), ty.clone()));
+                if ty == "Structure" && !line.contains("</") && tag != "prototype" {
+                    first_child.push((pos + line.len(), tag));
+                }
+            }
+        }
+        if line.starts_with("<prototype") {
+            in_proto = true;
+        }
+        pos += line.len();
+        line_no += 1;
+    }
+    if rng.chance(1, 2) && !twins.is_empty() {
+        // prefer the rarer kinds (Blob, Structure) over the many String/Float leaves
+        let rare: Vec<&(usize, String, String)> = twins.iter().filter(|t| t.2 == "Blob" || t.2 == "Structure" || t.2 == "Vector").collect();
+        let t = if !rare.is_empty() && rng.chance(1, 2) { *rng.pick(&rare) } else { rng.pick(&twins) };
+        Some((t.0, foreign_like(&t.1, &t.2), "element-twin"))
+    } else if !first_child.is_empty() {
+        // an image representation gets a foreign mask / blob, a cloud foreign bounds, …
+        let reps: Vec<&(usize, String)> = first_child.iter().filter(|f| f.1.ends_with("Representation")).collect();
+        let f = if !reps.is_empty() && rng.chance(1, 2) { *rng.pick(&reps) } else { rng.pick(&first_child) };
+        // what the reader looks up under this parent
+        let (l, ty) = if f.1.ends_with("Representation") {
+            *rng.pick(&[("imageMask", "Blob"), ("jpegImage", "Blob"), ("pngImage", "Blob"), ("imageMask", "Blob")])
+        } else if f.1 == "pose" {
+            *rng.pick(&[("rotation", "Structure"), ("translation", "Structure")])
+        } else {
+            *rng.pick(&OPTIONAL_CHILDREN)
+        };
+        Some((f.0, foreign_like(l, ty), "element-optional-child"))
+    } else {
+        None
+    }
+}
+
 /// byte offsets of line starts where an element may be inserted as a sibling: inside the root,
 /// outside every prototype
 
@@ -107,6 +183,15 @@ pub fn generate(sink: &mut Sink, seed: u64, thorough: bool) {
             let mut g = Gen { rng: &mut rng, exts: vec![], n: 0 };
             g.program(12)
         };
+        // images are rare in random programs: every third program gets one more
+        if rng.chance(1, 3) {
+            let im = {
+                let mut g = Gen { rng: &mut rng, exts: vec![], n: 1000 };
+                g.image()
+            };
+            let at = prog.stmts.len() - 1;
+            prog.stmts.insert(at, im);
+        }
         // the optional originalGuids vector is rare in random programs: make it common here
         for st in prog.stmts.iter_mut() {
             if let Stmt::Pc { body, .. } = st {
@@ -227,6 +312,11 @@ pub fn generate(sink: &mut Sink, seed: u64, thorough: bool) {
             }
             let a = *rng.pick(&["type", "fileOffset", "length", "recordCount", "minimum", "maximum", "precision", "custom"]);
             (*rng.pick(&pts), format!(" fx:{a}=\"{}\"", *rng.pick(&["Bogus", "0", "String", "99999999"])), "attribute")
+        } else if rng.chance(1, 2) {
+            match shadow_insertion(&mut rng, &xml) {
+                Some(x) => x,
+                None => continue,
+            }
         } else {
             let (pts, vec_pts) = insertion_points2(&xml);
             if pts.is_empty() {
@@ -267,6 +357,10 @@ pub fn generate(sink: &mut Sink, seed: u64, thorough: bool) {
                 let diffs = same_scene(&scene_a, &scene_b);
                 if let Some((_, sig, detail)) = diffs.first() {
                     sink.fail("C18", &format!("foreign/{kind}-changes/{sig}"), &replay, &format!("inserting fx:{local} under <{parent}> changes the standard content: {detail}"));
+                    if sig.starts_with("blob/") {
+                        // an image's descriptors no longer lead to that image's own data
+                        sink.fail("C06", &format!("foreign/{kind}-changes/{sig}"), &replay, &format!("inserting fx:{local} under <{parent}> makes the reader return other bytes for an image: {detail}"));
+                    }
                 }
             }
         }
